@@ -29,7 +29,7 @@ CHECKS = {
     ),
     "C02": (
         E2 + " composed with store-mutation histories; differential round-trip oracle",
-        "Every complete builder program of a reduced plan x every store-mutation history up to depth 1 (thorough 2) - delete leaf, add "
+        "Every complete builder program of a reduced plan x every single store mutation (thorough: a larger plan x single mutations, then the quick plan x pairs of mutations) - delete leaf, add "
         "attribute-rich nodes, order link, delete link, insert fragment, JSON metadata values, index reuse - is serialized, loaded and "
         "re-serialized; documents are compared as JSON values (type-strict: true/1/1.0 differ) and the observable structure through a "
         "hierarchy-only numbering. Plus every size-ladder HUGR as built and after every single store mutation.",
@@ -152,7 +152,7 @@ CHECKS = {
     "C13": (
         E2 + " with exhaustive single-fault injection at every reachable state",
         "From every builder-program prefix of 12 scenarios, every applicable single inconsistent call of a fault menu of 9 families (30 kinds) is executed on a "
-        "fresh replay of the state and must raise the documented error; plus every (width, untracked set, index, method) lookup of the tracked builder.",
+        "fresh replay of the state and must raise the documented error, raise again when repeated, and (for the validate-first families) leave the program completable to a valid HUGR; plus every (width, untracked set, index, method) lookup of the tracked builder.",
         "Trusted: fault menu + expected-exception table in mc/checks/c13.py; fail-stop only.",
         "DESIGN.md section 4 (C13)",
     ),
@@ -175,7 +175,7 @@ CHECKS = {
     ),
     "C20": (
         E2 + " monitor (R9 DOT reader) x configuration product",
-        "Every complete builder program of the plan (thorough: also after every single store mutation) x 7 render configurations: the DOT source is "
+        "Every complete builder program of the plan, as built x 7 render configurations and after one store mutation of each kind (thorough: a larger plan, then the quick plan after every single mutation): the DOT source is "
         "parsed and node statements, port cells, cluster nesting, edge statements and value labels are compared with the HUGR's public queries; "
         "HUGR unchanged; outputs equal across configurations modulo colours and extension prefix; plus size ladders (nodes with n ports, n links on "
         "a port, n chained siblings, and the shared ladder families).",
